@@ -664,7 +664,9 @@ func checkC18(r *Run) {
 	nr := r.pick(2, 36)
 	for i := 0; i < nr; i++ {
 		i := i
-		files = append(files, func() *descgen.Entry { return descgen.Random(r.Seed, i, descgen.RandOpt{NoTemporal: true, NoCustom: true}) })
+		files = append(files, func() *descgen.Entry {
+			return descgen.Random(r.Seed, i, descgen.RandOpt{NoTemporal: true, NoCustom: true})
+		})
 	}
 	kinds := []string{"time-without-time_type", "duration-without-duration_type", "map-with-int32-key"}
 	var all, compiled []*pipeline.Case
